@@ -347,6 +347,10 @@ func (app *App) register(methods []string, pathRaw string, group *Group, handler
 
 	parsedRaw := parseRoute(pathRaw, app.customConstraints...)
 	parsedPretty := parseRoute(pathPretty, app.customConstraints...)
+	if n := len(parsedPretty.segs); app.config.StrictRouting && n > 0 && !parsedPretty.segs[n-1].IsParam {
+		// Strict routing: the slash that ends the pattern is not optional
+		parsedPretty.segs[n-1].HasOptionalSlash = false
+	}
 
 	isMount := group != nil && group.app != app
 
